@@ -8,6 +8,9 @@ import TableauVerif.Model.Options
 import TableauVerif.Model.Excel
 import TableauVerif.Model.Xerrors
 import TableauVerif.Spec.C14
+import TableauVerif.Spec.C07
+import TableauVerif.Model.Literal
+import TableauVerif.Spec.C03
 namespace Driver
 open TableauVerif TableauVerif.Model
 
@@ -85,11 +88,78 @@ def c14 (fn : String) (a : List String) : Option String := do
   | _ => none
 
 /-! ### C07 (position / error text protocol) -/
+
+/-- error tree encoding: `W n k1 v1 … kn vn` (wrap layers, outermost first) … `L n k1 v1 … reason` -/
+partial def decErr? : List String → Option Xerrors.Err
+  | "W" :: n :: rest => do
+    let n ← decNat? n
+    let kvs ← decKVs? n rest
+    let inner ← decErr? (rest.drop (2 * n))
+    some (.wrap kvs inner)
+  | "L" :: n :: rest => do
+    let n ← decNat? n
+    let kvs ← decKVs? n rest
+    match rest.drop (2 * n) with
+    | [reason] => some (.leaf kvs (← decStr? reason))
+    | _ => none
+  | _ => none
+where
+  decKVs? : Nat → List String → Option (List Xerrors.KV)
+    | 0, _ => some []
+    | n + 1, k :: v :: rest => do
+      let k ← decStr? k; let v ← decStr? v
+      let tl ← decKVs? n rest
+      some ((k, v) :: tl)
+    | _, _ => none
+
+def decOptStr? (s : String) : Option (Option Str) :=
+  if s == "-" then some none else (decStr? s).map some
+
 def c07 (fn : String) (a : List String) : Option String := do
   match fn, a with
   | "c07.letter", [n] => some (encStr (Excel.letterAxis (← decNat? n)))
   | "c07.position", [r, c] => some (encStr (Excel.position (← decNat? r) (← decNat? c)))
+  | "o.c07.position", [r, c, o] => some (verdict (Spec.C07.holdsPosition (← decNat? r) (← decNat? c) (← decStr? o)))
   | "c07.descget", [txt, key] => some (encOptStr (Xerrors.newDescGet (← decStr? txt) (← decStr? key)))
+  | "c07.render", tree => some (encStr (Xerrors.render (← decErr? tree)))
+  | "c07.desc", key :: tree =>
+    let e ← decErr? tree
+    some (encOptStr (Xerrors.newDescGet (Xerrors.render e) (← decStr? key)))
+  | "o.c07.desc", key :: rest =>
+    let e ← decErr? rest.dropLast
+    let obs ← decOptStr? (← rest.getLast?)
+    some (Spec.C07.holdsDesc e (← decStr? key) obs).toString
+  | _, _ => none
+
+/-! ### C03 (literals) -/
+def decKind? (s : String) : Option Literal.Kind :=
+  match s with
+  | "int32" | "sint32" | "sfixed32" => some .int32
+  | "uint32" | "fixed32" => some .uint32
+  | "int64" | "sint64" | "sfixed64" => some .int64
+  | "uint64" | "fixed64" => some .uint64
+  | "bool" => some .bool
+  | _ => none
+
+def encRes : Literal.Res → String
+  | .ok v => s!"ok {v}"
+  | .absent => "absent"
+  | .err c => s!"err {c}"
+  | .unmodelled => "unmodelled"
+
+def decRes? (s : String) : Option Literal.Res :=
+  match s.splitOn " " with
+  | ["ok", v] => (decInt? v).map .ok
+  | ["absent"] => some .absent
+  | ["err", c] => (decNat? c).map .err
+  | ["PANIC"] => some (.err 999999)   -- a crash is not an acceptance; the panic itself is C17's business
+  | _ => none
+
+def c03 (fn : String) (a : List String) : Option String := do
+  match fn, a with
+  | "c03.parse", [k, raw] => some (encRes (Literal.parse (← decKind? k) (← decStr? raw)))
+  | "o.c03.parse", [k, raw, obs] =>
+    some (Spec.C03.holds (← decKind? k) (← decStr? raw) (← decRes? obs)).toString
   | _, _ => none
 
 def dispatch (line : String) : String :=
@@ -99,6 +169,7 @@ def dispatch (line : String) : String :=
     let r :=
       if fn.startsWith "c14." || fn.startsWith "o.c14." then c14 fn args
       else if fn.startsWith "c07." || fn.startsWith "o.c07." then c07 fn args
+      else if fn.startsWith "c03." || fn.startsWith "o.c03." then c03 fn args
       else none
     r.getD "bad-op"
 
